@@ -1,6 +1,7 @@
 package main
 
 import (
+	"reflect"
 	"go/token"
 	"go/types"
 	"strings"
@@ -250,6 +251,94 @@ func checkForwardUnderCancelGuards(p *Prog, r *Report, rule string) int {
 			n++
 			r.Check(okAll, rule, "forward to the recorded original in "+shortName(f)+" is on its non-nil side", p.Pos(posOf(cl)), "field != nil known at the call",
 				"the stub callback forwards to the recorded original on the side of the test where it is nil (and keeps serving the mock where it is not): after Cancel the call panics inside reflect or still returns mocked results")
+		})
+	}
+	return n
+}
+
+// checkElemUnderKindBelief: a reflect Elem() call is not made where the code itself has just established that its subject
+// is NOT of a kind that has an element: on every way into the call, if a test `subject.Kind() == Ptr` (or Interface, for a
+// Value) is known to have failed, some other test must have established a kind that Elem() accepts. (An inverted kind
+// test makes Elem() panic for exactly the values it was meant to skip, and skips the ones it was meant to unwrap.)
+func checkElemUnderKindBelief(p *Prog, r *Report, rule string, inPk func(string) bool) int {
+	n := 0
+	elemable := map[int64]bool{int64(reflect.Ptr): true, int64(reflect.Interface): true, int64(reflect.Array): true, int64(reflect.Chan): true, int64(reflect.Map): true, int64(reflect.Slice): true}
+	for _, f := range p.Funcs {
+		if f.Blocks == nil || !strings.HasPrefix(pkgPathOf(f), Mod) || !inPk(relPkg(f)) {
+			continue
+		}
+		nInF := 0
+		eachInstr(f, func(i ssa.Instruction) {
+			cl, ok := i.(*ssa.Call)
+			if !ok {
+				return
+			}
+			var subj ssa.Value
+			switch {
+			case calleeName(cl.Common()) == "(reflect.Value).Elem":
+				subj = cl.Call.Args[0]
+			case cl.Call.IsInvoke() && cl.Call.Method.Name() == "Elem" && strings.HasSuffix(cl.Call.Value.Type().String(), "reflect.Type"):
+				subj = cl.Call.Value
+			default:
+				return
+			}
+			subj = resolveLocal(subj)
+			isKindOfSubj := func(v ssa.Value) bool {
+				kc, ok := resolveLocal(v).(*ssa.Call)
+				if !ok {
+					return false
+				}
+				if calleeName(kc.Common()) == "(reflect.Value).Kind" {
+					return resolveLocal(kc.Call.Args[0]) == subj
+				}
+				if kc.Call.IsInvoke() && kc.Call.Method.Name() == "Kind" {
+					return resolveLocal(kc.Call.Value) == subj
+				}
+				return false
+			}
+			var ways [][]Guard
+			if b := cl.Block(); len(b.Preds) > 1 {
+				for _, pr := range b.Preds {
+					ways = append(ways, knownAtEdge(pr, b))
+				}
+			} else {
+				ways = append(ways, guardsAt(b))
+			}
+			tested := false
+			bad := false
+			for _, gs := range ways {
+				refuted, established := false, false
+				for _, g := range gs {
+					bo, ok := g.Cond.(*ssa.BinOp)
+					if !ok || (bo.Op != token.EQL && bo.Op != token.NEQ) {
+						continue
+					}
+					x, y := bo.X, bo.Y
+					if _, isC := x.(*ssa.Const); isC {
+						x, y = y, x
+					}
+					kc, isC := constInt(y)
+					if !isC || !isKindOfSubj(x) || !elemable[kc] {
+						continue
+					}
+					tested = true
+					if (bo.Op == token.EQL) == g.Pol {
+						established = true
+					} else {
+						refuted = true
+					}
+				}
+				if refuted && !established {
+					bad = true
+				}
+			}
+			if !tested {
+				return
+			}
+			n++
+			nInF++
+			r.Check(!bad, rule, "Elem() agrees with the kind test before it in "+shortName(f)+" #"+itoa2(nInF), p.Pos(posOf(cl)), "no way into Elem() on which the element-bearing kind was just ruled out",
+				"Elem() is called on a way on which the code has just established that the subject is not of a pointer/interface (element-bearing) kind: the kind test is inverted — Elem() panics for the values it was meant to leave alone and the ones it was meant to unwrap are left wrapped")
 		})
 	}
 	return n
